@@ -398,6 +398,11 @@ def c15Step (s : St) (line : String) : St × String :=
       let (sa, _) := run viaSpec posSpec true
       if ma == "bad-op" then bad else ({ s with fields := fs' }, ma ++ " | " ++ sa)
     | _, _, _ => bad
+  | ["held", _m, ln, seed] =>
+    -- a result the caller holds is a value: later reads (anywhere) cannot change it
+    match findView s.key, ln.toNat?, seed.toNat? with
+    | some _, some n, some _ => if n ≤ 32 then (s, "ok held") else bad
+    | _, _, _ => bad
   | ["raw"] =>
     match findView s.key with
     | some v =>
